@@ -27,6 +27,8 @@ struct Tree {
     files: Vec<FileSpec>, // files[0] = main
     caller_dirs: Vec<PathBuf>,
     root: PathBuf,
+    /// directories that bear the name of an included file (they are not files: the search goes on)
+    decoy_dirs: Vec<PathBuf>,
 }
 
 fn base_program(rng: &mut Rng) -> Vec<Node> {
@@ -125,6 +127,7 @@ fn base_program(rng: &mut Rng) -> Vec<Node> {
 
 struct Splitter<'a> {
     rng: &'a mut Rng,
+    decoy_dirs: Vec<PathBuf>,
     files: Vec<FileSpec>,
     root: PathBuf,
     caller_dirs: Vec<PathBuf>,
@@ -160,7 +163,7 @@ impl<'a> Splitter<'a> {
             let moved: Vec<Node> = nodes.drain(a..b).collect();
             self.counter += 1;
             let fname = format!("f{}_{}.inc", self.tag, self.counter);
-            let rule = *self.rng.pick(&["absolute", "includer-dir", "includer-subdir", "caller-dir", "includepath-absolute", "includepath-relative", "includepath-relative-nested"]);
+            let rule = *self.rng.pick(&["absolute", "includer-dir", "includer-subdir", "caller-dir", "includepath-absolute", "includepath-relative", "includepath-relative-nested", "includepath-from-included-file", "caller-dir-while-a-directory-has-that-name"]);
             let mut pre: Vec<Node> = vec![];
             // the name as written is a relative path like any other: it is joined to whichever directory is searched
             let (form, decorated): (&'static str, String) = match self.rng.below(8) {
@@ -172,7 +175,17 @@ impl<'a> Splitter<'a> {
             };
             let cwd = std::env::current_dir().ok();
             let rule = if rule == "absolute" && self.rng.chance(1, 2) && cwd.as_ref().map(|c| self.root.starts_with(c)).unwrap_or(false) { "as-written-from-working-directory" } else { rule };
+            let rule = if rule == "caller-dir-while-a-directory-has-that-name" && !cwd.as_ref().map(|c| self.root.starts_with(c)).unwrap_or(false) { "caller-dir" } else { rule };
             let (disk, written): (PathBuf, String) = match rule {
+                "caller-dir-while-a-directory-has-that-name" => {
+                    // at the path as written (from the working directory) there is a directory of that
+                    // name; the file itself lies under a caller-supplied directory
+                    let decoy = self.root.join("decoy").join(&fname);
+                    let rel = decoy.strip_prefix(cwd.as_ref().unwrap()).unwrap().to_path_buf();
+                    self.decoy_dirs.push(decoy);
+                    let d = self.rng.pick(&self.caller_dirs).clone();
+                    (d.join(&rel), rel.to_string_lossy().to_string())
+                }
                 "as-written-from-working-directory" => {
                     let d = self.root.join("cwdrel");
                     let rel = d.strip_prefix(cwd.as_ref().unwrap()).unwrap().join(&decorated);
@@ -192,6 +205,22 @@ impl<'a> Splitter<'a> {
                     let d = self.root.join(format!("ipabs{}", self.counter));
                     pre.push(Node::IncludePath(d.to_string_lossy().to_string()));
                     (d.join(&decorated), decorated.clone())
+                }
+                "includepath-from-included-file" => {
+                    // the .includepath sits in a small file of its own that is included first (a list of
+                    // library directories): it is an earlier .includepath like any other, resolved
+                    // against the file that holds it
+                    let n = self.counter;
+                    let cfg_idx = self.files.len();
+                    let cfgname = format!("cfg{}_{}.inc", self.tag, n);
+                    let (cfg_disk, cfg_written, rel) = if self.rng.chance(1, 2) {
+                        (dir.join(&cfgname), cfgname.clone(), format!("ipcfg{}", n))
+                    } else {
+                        (dir.join(format!("cfgdir{}", n)).join(&cfgname), format!("cfgdir{}/{}", n, cfgname), format!("../ipcfg{}", n))
+                    };
+                    self.files.push(FileSpec { nodes: vec![Node::Comment("search directories".into()), Node::IncludePath(rel)], disk: cfg_disk, rule: "includer-dir", form: "name" });
+                    pre.push(Node::Include { path: cfg_written, file: cfg_idx });
+                    (dir.join(format!("ipcfg{}", n)).join(&decorated), decorated.clone())
                 }
                 "includepath-relative" => {
                     let rel = format!("iprel{}", self.counter);
@@ -254,7 +283,7 @@ fn build_tree(rng: &mut Rng, case_id: u64, root_base: &Path) -> Tree {
     let main_dir = root.join("main");
     let caller_dirs = vec![root.join("callerA"), root.join("callerB")];
     let base = base_program(rng);
-    let mut sp = Splitter { rng, files: vec![FileSpec { nodes: vec![], disk: main_dir.join(format!("main{:x}.asm", case_id)), rule: "main", form: "name" }], root: root.clone(), caller_dirs: caller_dirs.clone(), counter: 0, tag: format!("{:x}", case_id) };
+    let mut sp = Splitter { rng, files: vec![FileSpec { nodes: vec![], disk: main_dir.join(format!("main{:x}.asm", case_id)), rule: "main", form: "name" }], root: root.clone(), caller_dirs: caller_dirs.clone(), counter: 0, tag: format!("{:x}", case_id), decoy_dirs: vec![] };
     let mut main_nodes = sp.split(base, &main_dir, 0);
     // half of the trees also hold a file that is included more than once and guards parts of itself:
     // `.ifndef G / .define G / first time / .else / later times / .endif`, or a guarded head followed
@@ -287,11 +316,11 @@ fn build_tree(rng: &mut Rng, case_id: u64, root_base: &Path) -> Tree {
         }
     }
     sp.files[0].nodes = main_nodes;
-    Tree { files: sp.files, caller_dirs, root }
+    Tree { files: sp.files, caller_dirs, root, decoy_dirs: sp.decoy_dirs }
 }
 
 fn write_tree(t: &Tree, skip: Option<usize>) -> std::io::Result<()> {
-    for d in &t.caller_dirs {
+    for d in t.caller_dirs.iter().chain(t.decoy_dirs.iter()) {
         std::fs::create_dir_all(d)?;
     }
     for (i, f) in t.files.iter().enumerate() {
@@ -383,7 +412,7 @@ fn check(ctx: &Ctx, rng: &mut Rng, case_id: u64, root_base: &Path) {
     let tree_json = || {
         json!(t.files.iter().map(|f| json!({"path": normalize(&f.disk).display().to_string(), "rule": f.rule, "text": ir::print_canonical(&f.nodes)})).collect::<Vec<_>>())
     };
-    let replay = |d: Value| json!({"tree": tree_json(), "caller_dirs": t.caller_dirs.iter().map(|p| p.display().to_string()).collect::<Vec<_>>(), "flattened": flat_src, "detail": d, "observed": out.brief(), "observed_flattened": flat_out.brief()});
+    let replay = |d: Value| json!({"tree": tree_json(), "decoy_dirs": t.decoy_dirs.iter().map(|p| p.display().to_string()).collect::<Vec<_>>(), "caller_dirs": t.caller_dirs.iter().map(|p| p.display().to_string()).collect::<Vec<_>>(), "flattened": flat_src, "detail": d, "observed": out.brief(), "observed_flattened": flat_out.brief()});
     // evidence: which rule resolved each include
     for e in &events {
         if let Event::Include { requested, resolved } = e {
@@ -445,7 +474,7 @@ fn check(ctx: &Ctx, rng: &mut Rng, case_id: u64, root_base: &Path) {
                 ctx.eval(1);
                 ctx.count("missing_file_cases", 1);
                 let fname = disk.file_name().unwrap().to_string_lossy().to_string();
-                let replay = json!({"tree": tree_json(), "caller_dirs": t.caller_dirs.iter().map(|p| p.display().to_string()).collect::<Vec<_>>(), "removed": disk.display().to_string(), "must_fail_naming": fname, "observed": out.brief()});
+                let replay = json!({"tree": tree_json(), "decoy_dirs": t.decoy_dirs.iter().map(|p| p.display().to_string()).collect::<Vec<_>>(), "caller_dirs": t.caller_dirs.iter().map(|p| p.display().to_string()).collect::<Vec<_>>(), "removed": disk.display().to_string(), "must_fail_naming": fname, "observed": out.brief()});
                 match &out {
                     Outcome::Ok(_) => ctx.violation("include/missing-file/accepted", format!("build succeeded although {} does not exist", fname), replay),
                     Outcome::Panic(p) => ctx.violation("include/missing-file/panic", fw::clip(p, 140), replay),
@@ -470,7 +499,7 @@ fn check(ctx: &Ctx, rng: &mut Rng, case_id: u64, root_base: &Path) {
                     ctx.violation(
                         "include/rebuild-after-missing-file",
                         format!("after a build that failed on a missing file, the restored tree no longer builds like before: {}", fw::clip(&format!("{:?}", again.brief()), 200)),
-                        json!({"tree": tree_json(), "caller_dirs": t.caller_dirs.iter().map(|p| p.display().to_string()).collect::<Vec<_>>(), "flattened": flat_src, "rebuild_after_failure": true, "observed": again.brief()}),
+                        json!({"tree": tree_json(), "decoy_dirs": t.decoy_dirs.iter().map(|p| p.display().to_string()).collect::<Vec<_>>(), "caller_dirs": t.caller_dirs.iter().map(|p| p.display().to_string()).collect::<Vec<_>>(), "flattened": flat_src, "rebuild_after_failure": true, "observed": again.brief()}),
                     );
                 }
             }
@@ -518,19 +547,64 @@ pub fn run(ctx: &Ctx) -> i32 {
         let t = build_tree(&mut rng, 0xabc, &root_base);
         ctx.sample(json!(t.files.iter().map(|f| json!({"path": normalize(&f.disk).strip_prefix(&root_base).map(|p| p.display().to_string()).unwrap_or_default(), "rule": f.rule, "lines": ir::print_canonical(&f.nodes).lines().collect::<Vec<_>>()})).collect::<Vec<_>>()));
     }
+    known_finding_probes(ctx, &root_base);
     let _ = std::fs::remove_dir_all(&root_base);
     fw::finish(
         ctx,
-        "generated programs (device selection, .equ/label/alias definitions and uses incl. forward references, macros defined on either side and called before/after, complete conditional chains, messages, data/EEPROM segments) cut at item boundaries into trees of files up to 5 deep; each file placed by one rule: absolute path, path as written from the working directory, includer's directory (also via sub/), caller-supplied directory, earlier absolute .includepath, earlier relative .includepath (also with ../); the name written as `name`, `./name`, `dir/name`, `./dir/name` or `../dir/name` under every rule; a third of the .include lines sit inside a conditional (taken branch, or the .else of an untaken branch that names files existing nowhere); a quarter of the included files end in `.exit` followed by garbage and .error; per tree one reachable file is removed (must fail naming it), then put back and the tree rebuilt on the same thread (must build as before); counters include-resolved:* = INCLUDE hook events by rule; distinct_nontrivial = distinct trees (seed, index)",
+        "generated programs (device selection, .equ/label/alias definitions and uses incl. forward references, macros defined on either side and called before/after, complete conditional chains, messages, data/EEPROM segments) cut at item boundaries into trees of files up to 5 deep; each file placed by one rule: absolute path, path as written from the working directory, includer's directory (also via sub/), caller-supplied directory, earlier absolute .includepath, earlier relative .includepath (also with ../), .includepath issued by a file included earlier, caller-supplied directory while a directory bears the file's name at the path as written; the name written as `name`, `./name`, `dir/name`, `./dir/name` or `../dir/name` under every rule; a third of the .include lines sit inside a conditional (taken branch, or the .else of an untaken branch that names files existing nowhere); a quarter of the included files end in `.exit` followed by garbage and .error; per tree one reachable file is removed (must fail naming it), then put back and the tree rebuilt on the same thread (must build as before); counters include-resolved:* = INCLUDE hook events by rule; distinct_nontrivial = distinct trees (seed, index)",
         &[
             "file names are unique per tree (precedence between equally named files is not specified)",
-            "an .includepath issued inside an included file is only relied on for that file's own later includes",
-            "conditional chains and macro definitions are never cut across files",
+            "the random splitter never cuts conditional chains or macro definitions across files and puts no .include into macro bodies: those three cases deviate on the pinned tree (known findings include/split/*, include/inside-macro-body/*) and are re-observed by fixed witness trees",
         ],
     )
 }
 
+/// Known findings (KNOWN_FINDINGS.txt): witness trees under /verif/findings/C11-*/ are copied to a
+/// scratch directory and built; `pasted.asm` there is the same program in one file.
+fn known_finding_probes(ctx: &Ctx, scratch: &Path) {
+    for (dir, sig, what) in [
+        ("C11-split-inside-conditional", "include/split/inside-conditional", "an included file that opens a conditional which the including file closes is not the same as the pasted lines"),
+        ("C11-split-inside-macro-definition", "include/split/inside-macro-definition", "an included file that opens a macro definition which the including file closes is not the same as the pasted lines"),
+        ("C11-include-inside-macro-body", "include/inside-macro-body/not-found", "an .include written in a macro body does not find a file that lies next to the source"),
+    ] {
+        let from = fw::verif_root().join("findings").join(dir);
+        let to = scratch.join(dir);
+        let _ = std::fs::create_dir_all(&to);
+        let mut copied = true;
+        if let Ok(rd) = std::fs::read_dir(&from) {
+            for e in rd.flatten() {
+                copied &= std::fs::copy(e.path(), to.join(e.file_name())).is_ok();
+            }
+        } else {
+            copied = false;
+        }
+        if !copied {
+            ctx.inconclusive(format!("witness {} cannot be copied", dir));
+            continue;
+        }
+        let tree = fw::build_file(&to.join("main.asm"), &[]);
+        let pasted = std::fs::read_to_string(to.join("pasted.asm")).map(|t| fw::build_str(&t));
+        ctx.eval(1);
+        ctx.count("known_finding_probes", 1);
+        let same = match (&tree, &pasted) {
+            (Outcome::Ok(a), Ok(Outcome::Ok(b))) => a.code == b.code && a.eeprom == b.eeprom,
+            _ => false,
+        };
+        if !same {
+            ctx.violation(sig, format!("{}: {}", what, fw::clip(&format!("{:?}", tree.brief()), 160)), json!({"witness": format!("findings/{}", dir), "observed": tree.brief()}));
+        }
+    }
+}
+
 pub fn replay(ctx: &Ctx, case: &Value) -> i32 {
+    if case.get("witness").is_some() {
+        let root = fw::verif_root().join("build").join(format!("scratch-c11-replay-{}", std::process::id()));
+        known_finding_probes(ctx, &root);
+        let _ = std::fs::remove_dir_all(&root);
+        ctx.distinct(1);
+        ctx.distinct(2);
+        return fw::finish(ctx, "replay", &[]);
+    }
     // re-create the tree from the replay file, rebuild, compare with the flattened text
     let root = fw::verif_root().join("build").join(format!("scratch-c11-replay-{}", std::process::id()));
     let _ = std::fs::create_dir_all(&root);
@@ -551,6 +625,9 @@ pub fn replay(ctx: &Ctx, case: &Value) -> i32 {
     }
     let dirs: Vec<PathBuf> = case["caller_dirs"].as_array().map(|a| a.iter().filter_map(|x| x.as_str()).map(PathBuf::from).collect()).unwrap_or_default();
     for d in &dirs {
+        let _ = std::fs::create_dir_all(d);
+    }
+    for d in case["decoy_dirs"].as_array().map(|a| a.iter().filter_map(|x| x.as_str()).collect::<Vec<_>>()).unwrap_or_default() {
         let _ = std::fs::create_dir_all(d);
     }
     ctx.eval(1);
